@@ -222,6 +222,14 @@ EvBalanceRaced(ev) ==
     IN /\ obs' = [GoodObs EXCEPT !.a = ev.a, !.conf = IsStrict("Balance") => conf]
        /\ UNCHANGED <<book, vtx, inflight, trxu>>
 
+EvHistory(ev) ==
+    LET n == ev.n
+        outs == IF ev.wl \in Wallet THEN HistoryOutcomes(book[n], ev.wl)
+                ELSE IF TipsOf(book[n]) = {} THEN {[res |-> "error", out |-> {}]} ELSE {[res |-> "ok", out |-> {}]}
+        conf == ev.unchanged /\ ev.nodup /\ \E o \in outs : o.res = ev.res /\ (o.res = "ok" => o.out = ToSet(ev.out))
+    IN /\ obs' = [GoodObs EXCEPT !.a = ev.a, !.conf = IsStrict("Balance") => conf]
+       /\ UNCHANGED <<book, vtx, inflight, trxu>>
+
 EvReadTrx(ev) ==
     LET n == ev.n
         o == ReadTrxOutcome(book[n], ev.t)
@@ -281,6 +289,7 @@ TNext ==
          [] ev.a \in {"Trust", "Untrust"} -> EvTrust(ev)
          [] ev.a = "Balance"       -> EvBalance(ev)
          [] ev.a = "BalanceRaced"  -> EvBalanceRaced(ev)
+         [] ev.a = "History"       -> EvHistory(ev)
          [] ev.a = "ReadTrx"       -> EvReadTrx(ev)
          [] ev.a = "ReadVertex"    -> EvReadVertex(ev)
          [] ev.a = "Load"          -> EvLoad(ev)
